@@ -238,6 +238,43 @@ def main():
                 for gname, sub in g["subs"]:
                     visit(sub, gpath + (gname,), chain)
             visit(spec, (), [])
+            # several variables in ONE request, with textually identical hyperslabs (same-named variables of different groups first)
+            allv = [(".".join(gp + (n_,)), n_, d_) for (gp, n_), d_ in values.items() if d_.shape and d_.dtype.kind != "S"]
+            for _ in range(3):
+                if len(allv) < 2:
+                    break
+                first = rng.choice(allv)
+                same_rank = [v_ for v_ in allv if v_ is not first and len(v_[2].shape) == len(first[2].shape)]
+                if not same_rank:
+                    continue
+                same_rank.sort(key=lambda v_: v_[1] != first[1])          # namesakes first
+                chosen = [first] + same_rank[:rng.randint(1, 2)]
+                ext_ = [min(v_[2].shape[k_] for v_ in chosen) for k_ in range(len(first[2].shape))]
+                if 0 in ext_:
+                    continue
+                sl, txt = [], ""
+                for e_ in ext_:
+                    a_ = rng.randrange(e_)
+                    b_ = rng.randrange(a_, e_)
+                    st = rng.randint(1, 2)
+                    sl.append(slice(a_, b_ + 1, st))
+                    txt += "[%d:%d:%d]" % (a_, st, b_)
+                url = "http://localhost:8001/f.dods?" + ",".join(v_[0] + txt for v_ in chosen)
+                stats["multi_variable_requests"] = stats.get("multi_variable_requests", 0) + 1
+                stats["multi_variable_requests_with_namesakes"] = stats.get("multi_variable_requests_with_namesakes", 0) + (
+                    len(set(v_[1] for v_ in chosen)) < len(chosen))
+                try:
+                    res = open_dods_url(url, application=h)
+                    for did, _n, d_ in chosen:
+                        var = res
+                        for part in did.split("."):
+                            var = var[part]
+                        got = np.asarray(var.data)
+                        want = d_[tuple(sl)]
+                        if got.shape != want.shape or not np.array_equal(got.astype("f8"), want.astype("f8")):
+                            problems.append((did, "hyperslab %s in the request %s" % (txt, url.split("?")[1]), got.tolist(), want.tolist()))
+                except Exception as e:  # noqa
+                    problems.append(("<dataset>", "request %s cannot be served" % url.split("?")[1], repr(e)[:200]))
             n_ds = len(list(walk(ds, BaseType)))
             n_spec = len(values)
             if n_ds != n_spec:
@@ -304,6 +341,40 @@ def main():
                     except Exception as e:  # noqa
                         direct.append({"law": "a request on the corpus file is answered, whatever the block size of the response",
                                        "request": ce_, "buffer_size": bs_, "error": repr(e)[:200]})
+            # namesakes in different groups, asked together with textually identical hyperslabs
+            gpath_ = os.path.join(tmp, "corpus_groups.nc")
+            gvals = {"a": np.arange(15, dtype="i4").reshape(3, 5), "g1.a": np.arange(15, dtype="i4").reshape(3, 5) + 100,
+                     "g1.g2.a": np.arange(15, dtype="i4").reshape(3, 5) + 200}
+            with netCDF4.Dataset(gpath_, "w") as ncd:
+                node = ncd
+                for key_ in ("a", "g1.a", "g1.g2.a"):
+                    parts_ = key_.split(".")
+                    node = ncd
+                    for gname_ in parts_[:-1]:
+                        node = node.groups[gname_] if gname_ in node.groups else node.createGroup(gname_)
+                    node.createDimension("r", 3)
+                    node.createDimension("c", 5)
+                    vv = node.createVariable("a", "i4", ("r", "c"))
+                    vv[...] = gvals[key_]
+            hg = NetCDFHandler(gpath_)
+            for ce_ in ("a[1:1:2][0:1:1],g1.a[1:1:2][0:1:1],g1.g2.a[1:1:2][0:1:1]", "g1.g2.a[0:2:2][1:1:3],a[0:2:2][1:1:3]",
+                        "g1.a[1:1:1][2:1:4],g1.a[1:1:1][2:1:4],a[1:1:1][2:1:4]"):
+                r.count(("nc-corpus-groups", ce_))
+                try:
+                    res = open_dods_url("http://localhost:8001/c.dods?" + ce_, application=hg)
+                    for item_ in dict.fromkeys(ce_.split(",")):
+                        did = item_.split("[")[0]
+                        nums = [int(x_) for x_ in item_.replace("]", "").replace("[", ":").split(":")[1:]]
+                        want = gvals[did][nums[0]:nums[2] + 1:nums[1], nums[3]:nums[5] + 1:nums[4]]
+                        var = res
+                        for part in did.split("."):
+                            var = var[part]
+                        got = np.asarray(var.data)
+                        if got.shape != want.shape or not np.array_equal(got, want):
+                            direct.append({"law": "every variable of a request holds the hyperslab written with it (namesakes in different "
+                                                  "groups included)", "request": ce_, "variable": did, "got": got.tolist(), "want": want.tolist()})
+                except Exception as e:  # noqa
+                    direct.append({"law": "a request naming variables of several groups is answered", "request": ce_, "error": repr(e)[:200]})
         except Exception as e:  # noqa
             direct.append({"law": "the corpus NetCDF file can be written and opened", "error": repr(e)[:300]})
 
